@@ -521,12 +521,16 @@ func (w *World) knownCycleCause(node *networkv1beta1.Node) string {
 				if !f.on {
 					continue
 				}
+				staying := 0
 				for _, ip := range f.m {
 					if ip != nil && ip.PodID == "" && ip.Status == networkv1beta1.IPStatusValid {
 						x.idle = true
 					}
+					if ip != nil && ip.Status != networkv1beta1.IPStatusDeleting {
+						staying++
+					}
 				}
-				if len(f.m) < f.per {
+				if staying < f.per { // entries on their way out make room again
 					x.room = true
 				}
 			}
